@@ -178,6 +178,21 @@ def _check_misc(fails):
   n += 1
   if not np.array_equal(np.asarray(e.apply(ve, idx)), np.asarray(ve['params']['embedding'])[np.asarray(idx)]):
     fails.append(dict(inputs=dict(layer='linen.Embed'), observed='is not a table lookup', violated='embed'))
+    return n
+  # documented index semantics: negative ids count from the end, ids >= num_embeddings give NaN rows
+  from flax import nnx
+  table = np.asarray(ve['params']['embedding'])
+  ne = nnx.Embed(5, 3, rngs=nnx.Rngs(0))
+  ne.embedding.value = jnp.asarray(table)
+  for ids in ([-1, -2, -3], [[0, -5], [4, -1]], [5, 7], [2, 6, -1]):
+    for api, fn in (('linen', lambda i: e.apply(ve, i)), ('nnx', lambda i: ne(i))):
+      n += 1
+      got = np.asarray(fn(jnp.asarray(ids)))
+      arr = np.asarray(ids)
+      want = np.where(((arr >= -5) & (arr < 5))[..., None], table[np.clip(arr, -5, 4)], np.nan)
+      if got.shape != want.shape or not np.allclose(got, want, equal_nan=True):
+        fails.append(dict(inputs=dict(layer=f'{api}.Embed', ids=repr(ids)), observed=f'lookup of ids {ids} returns {got.tolist()}, the table gives {want.tolist()}'[:400], violated='embed'))
+        return n
   return n
 
 
@@ -188,7 +203,7 @@ def run(tier, seed):
     cases += f(fails)
     if fails:
       break
-  return dict(name=NAME, cases=cases, distinct=cases, bound='Conv1D: kernels 1-4 x dilation 1-2 x stride 1-2 x 6 padding modes; LayerNorm/BatchNorm x fast/two-pass variance x mask; Dense, Dropout, pooling, Embed',
+  return dict(name=NAME, cases=cases, distinct=cases, bound='Conv1D: kernels 1-4 x dilation 1-2 x stride 1-2 x 6 padding modes; LayerNorm/BatchNorm x fast/two-pass variance x mask; Dense, Dropout, pooling, Embed (in-range, negative and out-of-range ids, linen and nnx)',
               failures=fails[:2], error=None)
 
 
